@@ -534,7 +534,7 @@ pub fn check_case(c: &Case, only_k: Option<u64>, acc: &mut Acc) -> CaseResult {
 }
 
 fn run_shard(ctx: &ShardCtx, acc: &mut Acc) {
-    drive(ctx, "runs", ctx.tier.pick(30, 1_000), 400, acc, &|ch, acc| {
+    drive(ctx, "runs", ctx.tier.pick(150, 2_000), 400, acc, &|ch, acc| {
         let c = gen_case(ch);
         acc.sample(|| json!({ "bytes": hex::encode(&c.bytes[..c.bytes.len().min(120)]), "len": c.bytes.len(), "interval": c.interval, "permissive": c.permissive, "kinds": c.kinds }));
         check_case(&c, None, acc)
